@@ -42,6 +42,11 @@ def _zone_case(args):
         return _zone_case_inner(args)
     except Hang as e:
         return (args[1], 0, [f"{os.path.basename(args[0])}:{args[1]}: {e}"])
+    except Exception as e:  # noqa: BLE001 -- the code under test raised while serving a zone of a valid file
+        import traceback
+
+        tb = traceback.extract_tb(e.__traceback__)
+        return (args[1], 0, [f"{os.path.basename(args[0])}:{args[1]}: {type(e).__name__}: {e} @ {tb[-1].name if tb else '?'}"])
     finally:
         signal.alarm(0)
 
@@ -69,6 +74,9 @@ def _zone_case_inner(args):
         iv = zone.get_zone_interval(Instant.from_unix_time_ticks(0))
         if iv.wall_offset.seconds != spec["fixed"] or iv.has_start or iv.has_end:
             bad("fixed zone differs from the file")
+        want_name = spec["name"] if spec["name"] is not None else zone.id
+        if iv.name != want_name or iv.savings.seconds != 0 or iv.standard_offset.seconds != spec["fixed"]:
+            bad(f"fixed zone: got name {iv.name!r} standard {iv.standard_offset} savings {iv.savings}, file says name {want_name!r} offset {spec['fixed']}s")
         return (zid, 1, probs)
     # precalculated part
     for start, end, name, wall, savings in spec["periods"]:
